@@ -329,6 +329,14 @@ class Gen:
             for it in rest:
                 if it.kind == "fn" and contracts.get(self.item_key(it, None)) is None:
                     self.unknown_fns.add(it.name)
+                elif it.kind == "impl" and it.body_open is not None:
+                    ck = contracts.get(self.item_key(it, None))
+                    if ck is not None and ck.skip:
+                        continue
+                    for sub in split_items(it.src, it.toks, it.body_open + 1, it.body_close):
+                        if sub.kind == "fn" and sub.body_open is not None and contracts.get(self.item_key(sub, it)) is None \
+                                and not ("*" in contracts and not any(k.startswith(self.item_key(sub, it) + " :: ") for k in contracts)):
+                            self.unknown_fns.add(sub.name)
         self.emit(f"{ind}verus! {{")
         groups = ["prelude_axioms"] + extra_groups
         self.emit(f"{ind}broadcast use {{" + ", ".join(("crate::lemmas::" if g_.endswith("_lemmas") else "crate::prelude::") + g_ for g_ in groups) + "};")
@@ -576,8 +584,8 @@ class Gen:
     # -- functions
     def fn_item(self, it, relsrc, key, c, attrs, ind, container):
         in_trait_decl = container is not None and container.kind == "trait"
-        if c is None and self.fallback and container is None and it.body_open is not None and it.name in getattr(self, "unknown_fns", ()):
-            # a new free function without contract: nothing is known about it, nothing is assumed about
+        if c is None and self.fallback and (container is None or container.kind == "impl") and it.body_open is not None and it.name in getattr(self, "unknown_fns", ()):
+            # a new function or method without contract: nothing is known about it, nothing is assumed about
             # it (external_body, no clauses); every function that calls it is externalised as well (below),
             # so no proof ever rests on it and the properties of its callers are decided by the bounded stand-in
             for a in attrs:
@@ -585,7 +593,9 @@ class Gen:
             self.emit(ind + "#[verifier::external_body]")
             self.emit(ind + it.text(it.attr_hi, it.body_open).rstrip(), {"src": relsrc, "line": it.line, "item": key})
             self.emit(ind + "{ unimplemented!() }")
-            self.externalised.append({"src": relsrc, "item": key, "reason": "new function without a contract (no side-car entry): left unverified, nothing assumed about it; its callers are externalised"})
+            self.externalised.append({"src": relsrc, "item": key, "new_item": True,
+                                      "public": bool(re.match(r"\s*pub\b", it.text(it.attr_hi, it.body_open))),
+                                      "reason": "new function without a contract (no side-car entry): left unverified, nothing assumed about it; its callers are externalised"})
             self.count("fallback_unknown_fn")
             return
         if c is None:
